@@ -598,3 +598,17 @@ func otherTask(s *Sim, rs []*Task, t *Task, salt uint64) *Task {
 	}
 	return rs[0]
 }
+
+// Stamp returns the next value of a global event sequence number. Only one task runs at a time, so the numbers are
+// totally ordered consistently with the real execution order; used to stamp invoke / return events of recorded histories.
+//
+//go:norace
+func Stamp() uint64 {
+	stampCtr++
+	return stampCtr
+}
+
+//go:norace
+func ResetStamp() { stampCtr = 0 }
+
+var stampCtr uint64
